@@ -102,6 +102,17 @@ PROPS = {
         "trusted": BER_TRUST,
         "assumptions": ["plain / TLS / StartTLS transports deliver the same bind request to the handler (C13, C18); this check drives the handler in-process through the directory's own mux"],
     },
+    "C05": {
+        "lean": ["GldapModel.Props.C05"],
+        "audit": "GldapModel/Audit/C05.lean",
+        "inventory": ["ResponseWriter.Write", "newResponseWriter", "conn.serveRequests", "conn.initConn"],
+        "streams": [
+            {"stream": "c05", "n_quick": 60, "n_thorough": 1500, "timeout_quick": 600, "timeout_thorough": 3000},
+        ],
+        "trusted": ["bufio.Writer modelled with non-atomic Write/Flush halves and arbitrary spill; sync.Mutex as mutual exclusion",
+                    "real memory corruption from a data race is visible only to the race detector (C15)"],
+        "assumptions": ["partial: the theorem speaks about the modelled bufio; TLS record layer and kernel socket buffers are trusted to preserve the byte stream"],
+    },
     "C14": {
         "lean": ["GldapModel.Props.C14"],
         "audit": "GldapModel/Audit/C14.lean",
